@@ -87,6 +87,7 @@ type FuncSpec struct {
 	Ghosts     []Param        // ghost parameters (existentially supplied by use sites as fresh symbols)
 	Asserts    []CallAssert
 	Binds      []CallBind
+	FrameTags  []string   // "frame-tags C09": extra property tags for the frame obligations of this function
 	Sweep      bool       // zero-annotation sweep: loops are cut with the invariant "true", reference parameters are non-nil
 	Lets       []CallBind // "let name = expr after call callee#k": a local ghost fixed right after one call site
 	Implements string // interface contract this method must satisfy
@@ -314,7 +315,7 @@ func parseFnHeader(s string) (name string, params []Param, ret string, body stri
 }
 
 var clauseKeywords = []string{"requires", "ensures", "modifies", "loop", "use", "pure", "inline", "allow-panic",
-	"check-overflow", "ghost", "bind", "let", "implements", "after", "no-recursion", "function", "assume", "allow-kind", "at", "trusted", "before", "fresh", "no-safety", "params", "results", "induction", "axiom"}
+	"check-overflow", "ghost", "bind", "let", "frame-tags", "implements", "after", "no-recursion", "function", "assume", "allow-kind", "at", "trusted", "before", "fresh", "no-safety", "params", "results", "induction", "axiom"}
 
 func startsWithKeyword(s string) (string, string, bool) {
 	for _, k := range clauseKeywords {
@@ -690,6 +691,8 @@ func (sf *SpecFile) addItem(it *rawItem, pkg string) error {
 					return err
 				}
 				fs.Binds = append(fs.Binds, CallBind{Callee: m[1], Ordinal: n, Name: m[3], Expr: e})
+			case "frame-tags":
+				fs.FrameTags = append(fs.FrameTags, strings.Fields(strings.ReplaceAll(l.text, ",", " "))...)
 			case "let":
 				// let <name> <type> = <expr> after call <callee>#<k>   (expr may use arg<i>, result<i> and the variables in scope)
 				m := regexp.MustCompile(`^(\w+)\s+(\S+)\s*=\s*(.*?)\s+after\s+call\s+(\S+?)#(\d+)$`).FindStringSubmatch(l.text)
